@@ -39,6 +39,9 @@ var frag = promqlgen.Alphabet{
 var (
 	chainOps   = []string{"and", "unless", "*", "=="}
 	chainRight = []string{"bar", "sum(bar)", "sum by(a) (bar)", "vector(1)"}
+	chainUnary = []string{"sum(%s)", "sum by(a) (%s)", "sum without(a) (%s)", "abs(%s)", "min by(b) (%s)", "%s > 0"}
+	orAlts     = []string{"foo", `foo{a="x"}`, "sum(foo)", "sum by(a) (foo)", "vector(1)"}
+	orRight    = []string{"bar", `bar{a="x"}`, "sum(bar)", "sum by(a) (bar)", "vector(1)"}
 	reOps      = []string{"and", "unless", "*"}
 	reMod1     = []string{"", "on(a)", "ignoring(b)", "on(a, a)"}
 	reAgg      = []string{"sum without(a) (%s)", "sum without(a, a) (%s)", "sum by(b) (%s)", "sum by(b, b) (%s)", "sum by(a, b) (%s)", "min without(a, c) (%s)", "sum(%s)"}
@@ -249,7 +252,7 @@ func class(reason, expr string) string {
 func body(c *explore.Chooser) *explore.Case {
 	var e promqlgen.Expr
 	var ok bool
-	subs := []string{"ops1", "wrapped", "chain", "reinclude"}
+	subs := []string{"ops1", "wrapped", "chain", "reinclude", "orjoin"}
 	if tier == "thorough" {
 		subs = append(subs, "ops2", "mini3")
 	}
@@ -274,8 +277,12 @@ func body(c *explore.Chooser) *explore.Case {
 		}
 	case "chain":
 		// U2(U1(foo{..})) OP MOD R: what two stacked label transformations leave behind, seen by a join
-		u2 := frag.Unary[c.Free(len(frag.Unary), "u2")]
-		u1 := frag.Unary[c.Free(len(frag.Unary), "u1")]
+		ul := chainUnary // quick: six wrappers; thorough: all of the fragment's
+		if tier == "thorough" {
+			ul = frag.Unary
+		}
+		u2 := ul[c.Free(len(ul), "u2")]
+		u1 := ul[c.Free(len(ul), "u1")]
 		sel := "foo"
 		if m := frag.Matchers[c.Free(len(frag.Matchers), "m")]; m != "" {
 			sel = "foo{" + m + "}"
@@ -306,6 +313,18 @@ func body(c *explore.Chooser) *explore.Case {
 			inner = sel3 + " * " + mod2 + " " + fmt.Sprintf(agg, "bar")
 		}
 		e = promqlgen.Expr{Text: sel + " " + op + " " + mod1 + " (" + inner + ")", Metrics: map[string]bool{"foo": true, "bar": true}, Ops: 3}
+		ok = true
+	case "orjoin":
+		// (L1 or L2) OP MOD R, both orientations: one side has several sources, the other joins only some
+		l1, l2 := orAlts[c.Free(len(orAlts), "l1")], orAlts[c.Free(len(orAlts), "l2")]
+		op := chainOps[c.Free(len(chainOps), "op")]
+		mod := frag.Modifiers[c.Free(len(frag.Modifiers), "mod")]
+		r := orRight[c.Free(len(orRight), "r")]
+		l := l1 + " or " + l2
+		if c.Free(2, "flip") == 1 {
+			l, r = r, l
+		}
+		e = promqlgen.Expr{Text: "(" + l + ") " + op + " " + mod + " (" + r + ")", Metrics: map[string]bool{"foo": true, "bar": true}, Ops: 3}
 		ok = true
 	case "ops2":
 		e, ok = promqlgen.Gen(c, &frag, 2, "e")
@@ -390,7 +409,7 @@ func body(c *explore.Chooser) *explore.Case {
 func main() {
 	explore.Main(&explore.Config{
 		Property: "C12", Level: "exploration",
-		Rule:        "expressions of the property's fragment (selectors x 4 matcher sets, label-preserving functions, aggregations by/without, arithmetic/comparison/set operators x 9 matching modifiers, numbers and vector(n) operands): all with <=1 operator node, every unary wrapper around every <=1-operator expression, and the 3-operator shapes chain (U2(U1(sel)) op mod R, both orientations) and reinclude (sel op mod1 (agg(bar) * mod2 sel3), label lists with repeated names) (thorough: also all with <=2 operator nodes and all with <=3 operator nodes of a small alphabet); for every 'dead code in query' problem of the real promql/impossible check, every binary operation the flagged position can belong to is evaluated by the vendored engine on EVERY database of <=2 series in which each series carries all labels a,b,c (values x|y) with constant values 0|1|2; a candidate is an enclosing binary operation B plus the flagged source X (the operand holding the position, or an `or` alternative of it holding the position); (B,X) is refuted on a database where B returns something and differs (labels and values) from B with X replaced by a selector matching nothing; the report is a false positive iff every candidate is refuted on some database",
+		Rule:        "expressions of the property's fragment (selectors x 4 matcher sets, label-preserving functions, aggregations by/without, arithmetic/comparison/set operators x 9 matching modifiers, numbers and vector(n) operands): all with <=1 operator node, every unary wrapper around every <=1-operator expression, and the 3-operator shapes chain (U2(U1(sel)) op mod R, both orientations) reinclude (sel op mod1 (agg(bar) * mod2 sel3), label lists with repeated names) and orjoin ((L1 or L2) op mod R, both orientations) (thorough: also all with <=2 operator nodes and all with <=3 operator nodes of a small alphabet); for every 'dead code in query' problem of the real promql/impossible check, every binary operation the flagged position can belong to is evaluated by the vendored engine on EVERY database of <=2 series in which each series carries all labels a,b,c (values x|y) with constant values 0|1|2; a candidate is an enclosing binary operation B plus the flagged source X (the operand holding the position, or an `or` alternative of it holding the position); (B,X) is refuted on a database where B returns something and differs (labels and values) from B with X replaced by a selector matching nothing; the report is a false positive iff every candidate is refuted on some database",
 		Assumptions: []string{"a dead Source carries a position but not the operation that killed it, so all enclosing binary operations are candidates and a report only counts as false when all are refuted (never alarms on a correct report)", "engine over our in-memory storage is the truth"},
 		Spaces:      []*explore.Space{{Name: "expressions", Body: body, Setup: setup, Bound: func(string) int { return -1 }}},
 		BudgetS: func(t string) int {
